@@ -12,6 +12,10 @@ REPO_SRCS = [
     "src/Bandit/Policies/ThompsonSamplingPolicy.cpp",
     "src/Bandit/Policies/TopTwoThompsonSamplingPolicy.cpp",
     "src/MDP/Policies/WoLFPolicy.cpp",
+    "src/MDP/Policies/PGAAPPPolicy.cpp",
+    "src/Bandit/Policies/ESRLPolicy.cpp",
+    "src/Bandit/Policies/SuccessiveRejectsPolicy.cpp",
+    "src/Bandit/Policies/RandomPolicy.cpp",
     "src/MDP/Policies/Policy.cpp",
     "src/MDP/Policies/PolicyWrapper.cpp",
     "src/Utils/Probability.cpp",
@@ -28,8 +32,12 @@ ASSUMPTIONS = [
     "actions passed to stepUpdateP / getActionProbability are in range (the C++ does not check them)",
 ]
 RULE = ("cases from props/C09.py gen(): Q-vectors on a k/16 grid of any sign with forced exact ties and shifts by +-1000; "
-        "epsilon / learning-rate grids incl. 0 and 1 and random doubles; LRP histories of 0..12 updates; "
-        "non-trivial = ties present or maximiser not at index 0 (greedy), 0<eps<1 (epsilon), at least one update (LRP); distinct by md5 of the case line")
+        "epsilon / temperature / learning-rate grids incl. 0 and 1 and random doubles; LRP histories of 0..25 updates; WoLF and "
+        "PGA-APP stepUpdateP histories (PGA-APP: vertex regime with large learning rates, slow regime lRate~0.002 with 60-100 "
+        "updates, random doubles); Thompson / TopTwo on recorded experiences (all-negative rewards included); ESRL, "
+        "SuccessiveRejects, Random at oracle level; non-trivial = ties present or maximiser not at index 0 (greedy), 0<eps<1 "
+        "(epsilon), at least one update (LRP/WoLF/PGA-APP), T>1e-6 (softmax), all arms explored (Thompson), a phase change "
+        "(ESRL/SR); distinct by md5 of the case line")
 THOROUGH_SEEDS = 3
 
 
@@ -230,11 +238,58 @@ def gen_mpol(rng):
     return "mpol %d %d %s %d" % (S, A, " ".join(toks), rng.randrange(1 << 30))
 
 
+def gen_pga(rng, tier):
+    """histories that reach the boundary of the simplex: large learning rates / clear best actions /
+       small prediction length (a vertex after one or two updates, then more updates), the slow
+       regime (lRate ~0.002, predictionLength 1/2, 60-100 updates of one state), and random doubles."""
+    mode = rng.choice(["vertex", "vertex", "slow", "rand"])
+    S = rng.choice([1, 1, 2, 3]); A = rng.choice([2, 3, 3, 4, 5])
+    rows = [gen_q(rng, A) for _ in range(S)]
+    toks = []
+    for r in rows:
+        toks += q_tokens(r)
+    if mode == "vertex":
+        lr = rng.choice(["1/10", "1/4", "1/2", "1", "1/16"]); pl = rng.choice(["0", "1/2", "1", "3", "1/4"])
+        nops = rng.choice([2, 3, 5, 8, 12])
+        ops = [rng.randrange(S) for _ in range(nops)]
+    elif mode == "slow":
+        lr = rng.choice(["1/512", "1/256", "0x1.0624dd2f1a9fcp-9"]); pl = rng.choice(["1/2", "1/2", "1/4", "0", "3"])
+        nops = rng.choice([60, 80, 100]) if tier != "search" else 60
+        s0 = rng.randrange(S)
+        ops = [s0 if rng.random() < 0.9 else rng.randrange(S) for _ in range(nops)]
+    else:
+        lr = float(rng.random() * rng.choice([0.01, 0.1, 1.0])).hex(); pl = float(rng.random() * 4).hex()
+        nops = rng.choice([1, 4, 10, 20])
+        ops = [rng.randrange(S) for _ in range(nops)]
+    return "pga %d %d %s %s %s %s %d" % (S, A, " ".join(toks), lr, pl, L(ops), rng.randrange(1 << 30))
+
+
+def gen_esrl(rng):
+    A = rng.choice([2, 3, 4, 5])
+    a = rng.choice(AB_GRID + [rand_unit(rng)])
+    N = rng.choice([1, 2, 3, 5]); phases = rng.choice([1, 2, 3, A, A + 2]); window = rng.choice([1, 2, 5])
+    nops = rng.choice([3, 8, 15, 30])
+    ops = " ".join("%d %d" % (rng.randrange(A), rng.randrange(2)) for _ in range(nops))
+    return "esrl %d %s %d %d %d %d %s %d" % (A, a, N, phases, window, nops, ops, rng.randrange(1 << 30))
+
+
+def gen_sr(rng):
+    A = rng.choice([2, 3, 4, 5])
+    budget = A + rng.choice([0, 1, 3, 8, 20, 40])
+    n = rng.choice([5, 15, 40, 70])
+    rews = [dy(rng.randint(-64, 64), 16) for _ in range(n)]
+    return "sr %d %d %s %d" % (A, budget, L(rews), rng.randrange(1 << 30))
+
+
+def gen_rnd(rng):
+    return "rnd %d %d %d" % (rng.choice([1, 2, 3, 5, 8]), rng.choice([1, 3, 6]), rng.randrange(1 << 30))
+
+
 def gen(rng, tier):
-    n = {"quick": 700, "thorough": 4000, "search": 1500}[tier]
+    n = {"quick": 900, "thorough": 4500, "search": 1500}[tier]
     out = []
     for _ in range(n):
-        k = rng.choice(["gr", "gr", "epg", "mgr", "lrp", "lrp", "smx", "smx", "smu", "ts", "tsn", "tt", "ttn", "wolf", "wolf", "mpol"])
+        k = rng.choice(["gr", "gr", "epg", "mgr", "lrp", "lrp", "smx", "smx", "smu", "ts", "tsn", "tt", "ttn", "wolf", "wolf", "mpol", "pga", "pga", "pga", "esrl", "sr", "rnd"])
         if k == "gr": out.append(gen_gr(rng))
         elif k == "epg": out.append(gen_epg(rng))
         elif k == "mgr": out.append(gen_mgr(rng))
@@ -243,5 +298,9 @@ def gen(rng, tier):
         elif k == "smu": out.append(gen_softmax(rng, "under"))
         elif k == "wolf": out.append(gen_wolf(rng, tier))
         elif k == "mpol": out.append(gen_mpol(rng))
+        elif k == "pga": out.append(gen_pga(rng, tier))
+        elif k == "esrl": out.append(gen_esrl(rng))
+        elif k == "sr": out.append(gen_sr(rng))
+        elif k == "rnd": out.append(gen_rnd(rng))
         else: out.append(gen_thompson(rng, k))
     return [" ".join(c.split()) for c in out]
